@@ -415,3 +415,54 @@ Proof.
         apply (IH a1 Hw Hnd' H ax i Hin). rewrite Hd. exact Hf.
     + apply (IH a Hwf Hnd' H ax i Hin Hf).
 Qed.
+
+(* ------------------------------------------------------------------ the n-ary fold _common_axis *)
+Lemma is_none_axis_mem a : is_none_axis a = true -> mem_label LNone (alab a) = true.
+Proof.
+  unfold is_none_axis. destruct (alab a) as [|[[q|s|]|t] r]; try discriminate. intros _. reflexivity.
+Qed.
+
+(* over any number of inputs (none of which carries the placeholder label None): the common axis holds exactly
+   the labels that some input has (outer) / that every input has (inner) *)
+Theorem common_axis_outer_set axs r :
+  Forall (fun a => mem_label LNone (alab a) = false) axs -> common_axis axs Outer = Ok r ->
+  forall l, mem_label l (alab r) = existsb (fun a => mem_label l (alab a)) axs.
+Proof.
+  revert r. induction axs as [|a0 t IH]; intros r Hn H l; [discriminate|].
+  destruct t as [|a1 t'].
+  - injection H as <-. simpl. rewrite orb_false_r. reflexivity.
+  - inversion Hn as [|? ? H0 Ht]; subst.
+    change (common_axis (a0 :: a1 :: t') Outer) with
+      (let! x := common_axis (a1 :: t') Outer in
+       if is_none_axis a0 then Ok x else if (alen x =? 1) && is_none_axis x then Ok a0 else Ok (axis_union a0 x)) in H.
+    destruct (common_axis (a1 :: t') Outer) as [x|] eqn:E; cbn [bind] in H; [|discriminate].
+    pose proof (IH x Ht eq_refl) as IHx.
+    assert (N0 : is_none_axis a0 = false).
+    { destruct (is_none_axis a0) eqn:E0; [|reflexivity]. apply is_none_axis_mem in E0. congruence. }
+    assert (Nx : is_none_axis x = false).
+    { destruct (is_none_axis x) eqn:Ex; [|reflexivity]. apply is_none_axis_mem in Ex. rewrite (IHx LNone) in Ex.
+      apply existsb_exists in Ex. destruct Ex as [y [Hy Ey]]. rewrite Forall_forall in Ht. rewrite (Ht y Hy) in Ey. discriminate. }
+    rewrite N0, Nx, andb_false_r in H. injection H as <-.
+    rewrite axis_union_mem, IHx. reflexivity.
+Qed.
+Theorem common_axis_inner_set axs r :
+  Forall (fun a => mem_label LNone (alab a) = false) axs -> common_axis axs Inner = Ok r ->
+  forall l, mem_label l (alab r) = forallb (fun a => mem_label l (alab a)) axs.
+Proof.
+  revert r. induction axs as [|a0 t IH]; intros r Hn H l; [discriminate|].
+  destruct t as [|a1 t'].
+  - injection H as <-. simpl. rewrite andb_true_r. reflexivity.
+  - inversion Hn as [|? ? H0 Ht]; subst.
+    change (common_axis (a0 :: a1 :: t') Inner) with
+      (let! x := common_axis (a1 :: t') Inner in
+       if is_none_axis a0 then Ok x else if (alen x =? 1) && is_none_axis x then Ok a0 else Ok (axis_intersection a0 x)) in H.
+    destruct (common_axis (a1 :: t') Inner) as [x|] eqn:E; cbn [bind] in H; [|discriminate].
+    pose proof (IH x Ht eq_refl) as IHx.
+    assert (N0 : is_none_axis a0 = false).
+    { destruct (is_none_axis a0) eqn:E0; [|reflexivity]. apply is_none_axis_mem in E0. congruence. }
+    assert (Nx : is_none_axis x = false).
+    { destruct (is_none_axis x) eqn:Ex; [|reflexivity]. apply is_none_axis_mem in Ex. rewrite (IHx LNone) in Ex.
+      inversion Ht as [|? ? H1 _]; subst. simpl in Ex. rewrite H1 in Ex. discriminate. }
+    rewrite N0, Nx, andb_false_r in H. injection H as <-.
+    rewrite axis_intersection_mem, IHx. reflexivity.
+Qed.
